@@ -1,4 +1,4 @@
-import MpsVerif.Proofs.AFifoStep
+import MpsVerif.Proofs.AFifoRun
 /-!
 # C08, concurrency clause, for ASYNC worker functions — the code as it is does not limit them (finding F35)
 
@@ -34,5 +34,40 @@ theorem C08_async_workers_unlimited_witness :
   refine ⟨_, ⟨[.pull, .fcheck, .submit, .put, .pull, .fcheck, .submit, .put, .pull, .fcheck, .submit,
                .start 0, .start 1, .start 2], rfl⟩, ?_, rfl⟩
   decide
+
+/-- What the code as it is does guarantee (the envelope of the known finding): while the consumer is still
+    iterating, at most `cap + 3` invocations are under way — the `cap + 1` slots of the hand-off queue, the
+    element in the feeder's hand and the one the consumer is waiting for; for `parmap`, `cap = 2 * concurrency`,
+    i.e. `2 * concurrency + 3`.  The check reports anything beyond this envelope as a new violation. -/
+theorem C08_async_workers_envelope (c : Cfg) (s : State) (hr : Reachable c s) (hact : s.cpc.active = true) :
+    s.running.length ≤ c.cap + 3 := by
+  have hall := all_reachable c hr
+  obtain ⟨⟨hnd, hnf⟩, hq⟩ := run_reachable c hr
+  obtain ⟨hord, hle⟩ := hall.ord hact
+  obtain ⟨hout, hfin, _⟩ := hall.res
+  obtain ⟨_, _, q3, _⟩ := hall.pool
+  have hsub : s.running ⊆ List.range' s.out.length (s.pulled - s.out.length) := by
+    intro j hj
+    have h1 : j < s.pulled := by have := q3 j (Or.inr (Or.inl hj)); omega
+    have h2 : s.out.length ≤ j := by
+      rcases Nat.lt_or_ge j s.out.length with hlt | hge
+      · exfalso
+        have hmem : (j, j) ∈ s.out := by
+          rw [hout]; exact List.mem_map.2 ⟨j, List.mem_range.2 (by simpa using hlt), rfl⟩
+        exact hnf j hj (hfin _ hmem).1
+      · exact hge
+    rw [List.mem_range']
+    exact ⟨j - s.out.length, by omega, by omega⟩
+  have hlen := List.Nodup.length_le_of_subset hnd hsub
+  have hcount := congrArg List.length hord
+  simp only [List.length_append, List.length_range'] at hcount hlen
+  have hc : (cIdx s.cpc).length ≤ 1 := by cases s.cpc <;> simp [cIdx]
+  have hf : (fIdx s.fpc).length ≤ 1 := by cases s.fpc <;> simp [fIdx]
+  have hqi := qidx_length_le s.queue
+  unfold QLenInv at hq
+  omega
+
+/-- the envelope is attained up to the two hand positions by the schedule of the witness (3 = cap + 1) -/
+example : witnessCfg.cap + 1 = 3 := rfl
 
 end AFifo
